@@ -628,11 +628,31 @@ class Interp:
             f"unresolved name {name!r} at line {getattr(node, 'lineno', '?')}"
         )
 
+    def run_class_decorators(self, module):
+        """Import-time effects: a class decorated with a function of its own module (`@register(...)`) has that
+        function applied to it when the module is imported, in source order."""
+        done = self.ctx.globals.setdefault(("__inited__", None), set())
+        if module.name in done:
+            return
+        done.add(module.name)
+        for cname, ci in getattr(module, "classes", {}).items():
+            for dec in ci.node.decorator_list:
+                if isinstance(dec, ast.Name) and dec.id in getattr(module, "functions", {}):
+                    fr = Frame(module, None)
+                    self.inline_call(module.functions[dec.id], [PClass(ci)], {}, fr, spec=False)
+
     def load_global(self, module, name):
         key = (module.name, name)
         if key in self.ctx.globals:
             return self.ctx.globals[key]
         r = module.resolve_name(name)
+        if isinstance(r, tuple) and r[0] == "const" and r[2] is module and isinstance(r[1], (ast.Dict, ast.List)):
+            # a module-level container may be filled by class decorators at import time
+            fr0 = Frame(module, None)
+            v = self.eval(r[1], fr0)
+            self.ctx.globals[key] = v
+            self.run_class_decorators(module)
+            return v
         if r is None:
             return NotImplemented
         v = self.wrap_resolved(r, name)
